@@ -264,7 +264,12 @@ qthread_shepherd_t INTERNAL *qthread_find_active_shepherd(qthread_shepherd_id_t 
         busyness = qt_threadqueue_advisory_queuelen(sheps[l[target]].ready);
         for (alt = target + 1; alt < (nsheps - 1) && d[l[alt]] == target_dist;
              alt++) {
-            saligned_t shep_busy_level = qt_threadqueue_advisory_queuelen(sheps[l[alt]].ready);
+            saligned_t shep_busy_level;
+
+            if (QTHREAD_CASLOCK_READ_UI(sheps[l[alt]].active) == 0) {
+                continue;
+            }
+            shep_busy_level = qt_threadqueue_advisory_queuelen(sheps[l[alt]].ready);
             if ((shep_busy_level < busyness) ||
                 ((shep_busy_level == busyness) && (random() % 2 == 0))) {
                 qthread_debug(SHEPHERD_FUNCTIONS,
